@@ -22,9 +22,11 @@ encodings decode to the same object as the current one.
 Compare: constructor result, dictionary (keys present / elided, values), decoded
 object, caller's dictionary afterwards, second dictionary, error class.
 """
+import collections
 import copy
 import datetime
 import itertools
+import types
 
 ID = "C12"
 PROPS = "Props/C12.v"
@@ -47,6 +49,7 @@ THEOREMS = [
     "C12_constructor_output_wf_needs_typing", "C12_roundtrip_constructed", "C12_idf_invariant_satisfiable",
     "C12_schema_types_match_generated", "C12_model_schemas_match_generated", "C12_type_codes_injective",
     "C12_generic_validated_match_generated", "C12_enums_match_generated",
+    "C12_decode_twice", "C12_input_untouched_BaseContent", "C12_decode_twice_BaseContent", "C12_skipped_nocopy_refuted",
 ]
 RULE = ("objects of the 18 model classes generated from the attrs schemas: full presence matrix of the optional "
         "fields (exhaustive up to 8, sampled beyond), every admissible context subset of RawExtrinsicMetadata per "
@@ -59,7 +62,23 @@ RULE = ("objects of the 18 model classes generated from the attrs schemas: full 
         "BOTH with canonical and non-canonical recorded bytes (b'+200', b'+0160', b'', b'-0000', 6+ bytes), int / dict / "
         "partial timestamps, ISO strings, OriginVisit(Status) dates given as non-datetimes; each with the expectation "
         "of the documented legacy rule computed by the harness (Person: not-None parts joined by a space; dates: "
-        "recorded offset_bytes verbatim whenever present) and id agreement with the current encoding; non-trivial = an "
+        "recorded offset_bytes verbatim whenever present) and id agreement with the current encoding; for every class "
+        "and every from_dict route (direct, BaseContent dispatch, nested under author / committer / date / "
+        "committer_date / timestamp / entries / branches / authority / fetcher / revision metadata) dictionaries that "
+        "carry each key the route knows about (attrs fields + the string literals of the from_dict / post-init bodies, "
+        "read from the source at generation time: data, ctime, reason, type, offset, negative_utc, extra_headers ...) "
+        "with None, a valid and an invalid value, nested dictionaries also as OrderedDict / MappingProxyType; every "
+        "dictionary case is snapshot by value before the call and compared after it whether it returned or raised, "
+        "and decoded a second time from the SAME object (same object or same exception class); audit dimensions: every "
+        "field set to the falsy value(s) of its declared type (b'', '', 0, False, (), {}) and to True/False where an "
+        "int is declared, one at a time and all at once; A / A-with-one-field-changed / A sequences per class and "
+        "field (state kept across calls); dictionaries holding enum members (must decode like the value), SWHID "
+        "objects, already decoded objects, datetime / int / bool dates inside Release / Revision (must decode like "
+        "the standalone date decoder's dictionary), falsy or object branch values, parents / entries as lists, "
+        "non-string keys, a read-only top-level mapping, a textual ctime (dateutil's answer handed to the model as an "
+        "oracle); limits of the validators (2047 / 2048-byte URLs in 1 and 2-byte characters, a lone surrogate, "
+        "timestamp bounds +-1, 19/20/21-byte branch targets, visit 0 / -1 / True, perms as bool / str / None, id None, "
+        "non-string metadata keys); 40-deep metadata, 300 parents / entries / branches; non-trivial = an "
         "object with >=1 optional field set and >=1 optional field None/elided, or a dictionary-level case; "
         "distinct = distinct canonical case")
 TRUSTED = ["attrs: __init__ binds kwargs by name, applies converters, runs validators in field order, then "
@@ -294,10 +313,10 @@ def abstract(v):
         return tuple(abstract(x) for x in v)
     if isinstance(v, list):
         return [abstract(x) for x in v]
-    if isinstance(v, dict):
-        return SDict([(abstract(k), abstract(x)) for k, x in v.items()])
     if isinstance(v, ImmutableDict):
         return SIDict([(abstract(k), abstract(x)) for k, x in v.items()])
+    if isinstance(v, (dict, types.MappingProxyType)):      # OrderedDict and read-only views are read as their items
+        return SDict([(abstract(k), abstract(x)) for k, x in v.items()])
     if isinstance(v, S.CoreSWHID):
         return SSwhid("c", v.object_type.value, v.object_id)
     if isinstance(v, S.ExtendedSWHID):
@@ -986,6 +1005,403 @@ def nested_legacy_cases(g, quick):
 
 
 
+# ------------------------------------------------------------------ "from_dict leaves its argument alone", systematically
+# which class decodes the dictionaries nested under a key (read off the from_dict bodies of model.py)
+NESTED = {
+    ("Release", "author"): "Person", ("Release", "date"): "TimestampWithTimezone",
+    ("Revision", "author"): "Person", ("Revision", "committer"): "Person",
+    ("Revision", "date"): "TimestampWithTimezone", ("Revision", "committer_date"): "TimestampWithTimezone",
+    ("Revision", "metadata"): "<revision-metadata>",
+    ("TimestampWithTimezone", "timestamp"): "Timestamp",
+    ("Directory", "entries"): "DirectoryEntry", ("Snapshot", "branches"): "SnapshotBranch",
+    ("RawExtrinsicMetadata", "authority"): "MetadataAuthority", ("RawExtrinsicMetadata", "fetcher"): "MetadataFetcher",
+}
+INVALID_VALUES = [5, b"x", "s", [], SDict([])]
+
+
+def known_keys(cls_name):
+    """the keys cls.from_dict knows about: the attrs fields of the class plus every identifier-like string literal
+    in the bodies of the from_dict / __attrs_post_init__ methods along its MRO (read from the source, not guessed)"""
+    import ast
+    import inspect
+    import textwrap
+    import attr
+    from swh.model import model as M
+    if cls_name == "<revision-metadata>":
+        return ["extra_headers"]
+    cls = getattr(M, cls_name)
+    keys = [f.name for f in attr.fields(cls)] if attr.has(cls) else []
+    for k in cls.__mro__:
+        for meth in ("from_dict", "__attrs_post_init__", "from_numeric_offset"):
+            f = k.__dict__.get(meth)
+            if f is None:
+                continue
+            f = getattr(f, "__func__", f)
+            try:
+                tree = ast.parse(textwrap.dedent(inspect.getsource(f)))
+            except Exception:
+                continue
+            doc = ast.get_docstring(tree.body[0]) if tree.body else None
+            for node in ast.walk(tree):
+                if isinstance(node, ast.Constant) and isinstance(node.value, str) and node.value != doc:
+                    v = node.value
+                    if v.isidentifier() and len(v) < 24 and v not in keys:
+                        keys.append(v)
+    return keys
+
+
+def _positions(cls_name, d, path=()):
+    """(path, class) of every dictionary inside d that some from_dict decodes, d itself first"""
+    out = [(path, cls_name)]
+    for k, v in d.items:
+        sub = NESTED.get((cls_name, k))
+        if sub is None:
+            continue
+        if isinstance(v, SDict) and sub == "SnapshotBranch":
+            for bk, bv in v.items:
+                if isinstance(bv, SDict):
+                    out += _positions(sub, bv, path + (k, bk))
+        elif isinstance(v, SDict):
+            out += _positions(sub, v, path + (k,)) if not sub.startswith("<") else [(path + (k,), sub)]
+        elif isinstance(v, (tuple, list)):
+            for i, x in enumerate(v):
+                if isinstance(x, SDict):
+                    out += _positions(sub, x, path + (k, i))
+    return out
+
+
+def _set_at(d, path, key, value):
+    """a copy of the spec d with d[path...][key] = value (key appended when new)"""
+    if not path:
+        items = [(k, (value if k == key else v)) for k, v in d.items]
+        if key not in [k for k, _ in d.items]:
+            items.append((key, value))
+        return SDict(items)
+    h, rest = path[0], path[1:]
+    if isinstance(d, SDict):
+        return SDict([(k, (_set_at(v, rest, key, value) if k == h else v)) for k, v in d.items])
+    seq = [(_set_at(x, rest, key, value) if i == h else x) for i, x in enumerate(d)]
+    return tuple(seq) if isinstance(d, tuple) else seq
+
+
+def untouched_cases(g, quick):
+    """for every class and every from_dict route (direct, BaseContent dispatch, nested): dictionaries that carry the
+    optional / legacy / to-be-dropped keys the route knows about, each with None, a valid and an invalid value;
+    nested dictionaries also as OrderedDict / MappingProxyType"""
+    r = g.r
+    out = []
+    bases, pool = {}, {}
+    for cls in CLASSES:
+        bases[cls] = []
+        for spec in _guard(gen_class, g, cls, 8):
+            try:
+                d = abstract(realize(fix_right_id(spec)).to_dict())
+            except Exception:
+                continue
+            bases[cls].append(d)
+            for k, v in d.items:
+                pool.setdefault((cls, k), []).append(v)
+    legacy_pool = {"offset": [0, 120, -330], "negative_utc": [True, False], "offset_bytes": [b"+0200", b"+200", b"-0000"],
+                   "data": [b"data", b""], "type": ["origin", "revision"], "ctime": [g.date()], "reason": ["why"],
+                   "extra_headers": [[[b"k", b"v"]], ()], "fullname": [b"A <a>"], "name": [b"A"], "email": [b"a"],
+                   "seconds": [1], "microseconds": [2], "perms": [0o100644], "path": [b"p"], "id": [g.sha(), b""],
+                   "raw_manifest": [b"tree 0\x00"], "target": [g.sha()]}
+    per_base = 14 if quick else 10**6
+    for top in CLASSES + ["BaseContent"]:
+        srcs = (bases["Content"] + bases["SkippedContent"]) if top == "BaseContent" else bases[top]
+        if not srcs:
+            continue
+        r.shuffle(srcs)
+        for d in srcs[: (3 if quick else 12)]:
+            top_cls = top
+            if top == "BaseContent":
+                top_cls = "SkippedContent" if dict(d.items).get("status") == "absent" else "Content"
+            variants = []
+            for path, pcls in _positions(top_cls, d):
+                try:
+                    keys = known_keys(pcls)
+                except Exception:
+                    keys = []
+                fields = set(k for k, _ in d.items) if not path else set()
+                for key in keys:
+                    valid = pool.get((pcls, key), []) + legacy_pool.get(key, [])
+                    vals = [None, r.choice(valid) if valid else g.bytes_(), r.choice(INVALID_VALUES)]
+                    if key == "get_data":
+                        vals = [None]            # loader hooks are not data (DESIGN 7): only "no hook"
+                    extra_key = key not in fields                    # a key to_dict never emits at this place
+                    for v in vals:
+                        variants.append((0 if (extra_key or path) else 1, path, key, v))
+            r.shuffle(variants)
+            variants.sort(key=lambda t: t[0])                       # legacy / nested keys first, plain fields sampled
+            for _, path, key, v in variants[:per_base]:
+                try:
+                    w = enc(_set_at(d, path, key, v))
+                except Exception:
+                    continue
+                c = {"cls": top, "kind": "dict", "legacy": None, "route": "keys", "w": w}
+                m = r.random()
+                if m < 0.15:
+                    c["mapping"] = "odict"
+                elif m < 0.3:
+                    c["mapping"] = "proxy"
+                out.append(c)
+    return out
+
+
+def to_mapping(v, kind, top=True):
+    """the same dictionary with every nested dict (odict: the top one too) as another Mapping type"""
+    if isinstance(v, dict):
+        inner = {k: to_mapping(x, kind, False) for k, x in v.items()}
+        if kind == "odict":
+            return collections.OrderedDict(inner)
+        if kind == "proxy_top":
+            return types.MappingProxyType(inner) if top else inner
+        return inner if top else types.MappingProxyType(inner)
+    if isinstance(v, list):
+        return [to_mapping(x, kind, False) for x in v]
+    if isinstance(v, tuple):
+        return tuple(to_mapping(x, kind, False) for x in v)
+    return v
+
+
+
+# ------------------------------------------------------------------ audit dimensions
+def _field_types(cls_name):
+    import attr
+    from swh.model import model as M
+    return [(f.name, type_code(f.type)) for f in attr.fields(getattr(M, cls_name))]
+
+
+def _with(spec, name, value):
+    fl = [(n, (value if n == name else v)) for n, v in spec.fields]
+    if name not in [n for n, _ in spec.fields]:
+        fl.append((name, value))
+    return SObj(spec.cls, fl)
+
+
+def falsy_cases(g, quick):
+    """every field of every class set to the falsy value(s) its declared type admits (b"", "", 0, False, (), {}),
+    to True / False where an int is declared (bool is an int), one field at a time and all at once"""
+    r = g.r
+    out = []
+    for cls in CLASSES:
+        specs = [sp for sp in _guard(gen_class, g, cls, 8)]
+        if not specs:
+            continue
+        r.shuffle(specs)
+        for base in specs[: (2 if quick else 8)]:
+            allf = base
+            for name, t in _field_types(cls):
+                vals = []
+                if name == "get_data":
+                    continue                 # loader hooks are not data (DESIGN 7)
+                if "bytes" in t and "Tuple" not in t and "Dict" not in t:
+                    vals.append(b"")
+                if t in ("str", "Optional[str]"):
+                    vals.append("")
+                if t in ("int", "Optional[int]"):
+                    vals += [0, True, False]
+                if t == "bool":
+                    vals.append(False)
+                if t.startswith("Tuple"):
+                    vals.append(())
+                if "ImmutableDict" in t:
+                    vals.append(SDict([]))
+                for v in vals:
+                    out.append({"cls": cls, "kind": "obj", "route": "falsy", "w": enc(fix_right_id(_with(base, name, v)))})
+                if vals and name != "id":
+                    allf = _with(allf, name, vals[0])
+            out.append({"cls": cls, "kind": "obj", "route": "falsy", "w": enc(fix_right_id(allf))})
+    return out
+
+
+def neighbour_cases(g, quick):
+    """A, then A with ONE field changed (also a field that takes no part in == or in unique_key: name / email of a
+    person, ctime, the metadata of an authority or fetcher, the payload of an ExtID ...), then A again, in this
+    order in the same process: a decoder that remembers earlier calls by key is seen"""
+    r = g.r
+    out = []
+    for cls in CLASSES:
+        specs = [sp for sp in _guard(gen_class, g, cls, 8)]
+        if len(specs) < 2:
+            continue
+        r.shuffle(specs)
+        for base in specs[: (1 if quick else 6)]:
+            pool = {}
+            for sp in specs:
+                for n, v in sp.fields:
+                    pool.setdefault(n, []).append(v)
+            a = {"cls": cls, "kind": "obj", "route": "neighbour", "w": enc(fix_right_id(base))}
+            for name, _ in _field_types(cls):
+                if name in ("id", "get_data"):
+                    continue
+                cur = dict(base.fields).get(name, "<unset>")
+                others = [v for v in pool.get(name, []) if enc(v) != (enc(cur) if cur != "<unset>" else None)]
+                if not others:
+                    continue
+                b = _with(base, name, r.choice(others))
+                out += [a, {"cls": cls, "kind": "obj", "route": "neighbour", "w": enc(fix_right_id(b))}, a]
+    return out
+
+
+def mixed_dict_cases(g, quick):
+    """dictionaries that are not pure dictionary forms: enum MEMBERS where the value is expected, SWHID objects where
+    the string is expected, already decoded objects where a dictionary is expected, dates given as datetime / int
+    inside Release / Revision, falsy branch values, parents as a list, non-string keys, a textual ctime"""
+    r = g.r
+    out = []
+
+    def add(cls, spec, **kw):
+        try:
+            c = {"cls": cls, "kind": "dict", "legacy": None, "route": "mixed", "w": enc(spec)}
+            c.update(kw)
+            out.append(c)
+        except Exception:
+            pass
+
+    def base(cls, n):
+        res = []
+        for sp in _guard(gen_class, g, cls, 8):
+            try:
+                o = realize(fix_right_id(sp))
+                res.append((o, abstract(o), abstract(o.to_dict())))
+            except Exception:
+                pass
+        r.shuffle(res)
+        return res[:n]
+
+    n = 3 if quick else 20
+    enum_fields = {"SnapshotBranch": ("target_type", "A"), "Release": ("target_type", "B"), "Revision": ("type", "C"),
+                   "MetadataAuthority": ("type", "D")}
+    for cls, (key, code) in enum_fields.items():
+        for o, so, d in base(cls, n):
+            val = dict(d.items)[key]
+            add(cls, _set_at(d, (), key, SEnum(code, val)), w2=enc(d))              # the member itself: like its value
+            other = [c for c in "ABCD" if c != code and val in ENUM_VALUES[c]]
+            add(cls, _set_at(d, (), key, SEnum(other[0], val) if other else SEnum("C", "git")))   # a member of another enum
+    for o, so, d in base("ExtID", n):
+        add("ExtID", _set_at(d, (), "target", dict(so.fields)["target"]))          # CoreSWHID object instead of str
+    for o, so, d in base("RawExtrinsicMetadata", n):
+        f = dict(so.fields)
+        add("RawExtrinsicMetadata", _set_at(d, (), "target", f["target"]))
+        add("RawExtrinsicMetadata", _set_at(d, (), "authority", f["authority"]))   # decoded objects
+        add("RawExtrinsicMetadata", _set_at(d, (), "fetcher", f["fetcher"]))
+        for k in ("snapshot", "release", "revision", "directory"):
+            if f.get(k) is not None:
+                add("RawExtrinsicMetadata", _set_at(d, (), k, f[k]))
+    for cls, keys in (("Release", ("author", "date")), ("Revision", ("author", "committer", "date", "committer_date"))):
+        for o, so, d in base(cls, n * 2):
+            f = dict(so.fields)
+            for k in keys:
+                if f.get(k) is not None:
+                    add(cls, _set_at(d, (), k, f[k]))                                # decoded Person / date object
+            for k in keys:
+                if k.endswith("date") and (f.get("author" if k == "date" else "committer") is not None):
+                    for dv in (g.date(), r.choice([0, 5, 1_600_000_000]), True):        # datetime / int / bool
+                        kw = {}
+                        try:     # composition (not for the int 0: /repo tests `if d.get("date")`, so the epoch given as an
+                            # int is left undecoded and rejected - observed, reported, not a listed legacy encoding)
+                            if dv == 0 and dv is not False:
+                                raise ValueError("falsy int date"): the embedded date decodes like the standalone decoder's dictionary
+                            from swh.model.model import TimestampWithTimezone
+                            kw["w2"] = enc(_set_at(d, (), k, abstract(TimestampWithTimezone.from_dict(realize(dv)).to_dict())))
+                        except Exception:
+                            pass
+                        add(cls, _set_at(d, (), k, dv), **kw)
+            if cls == "Revision":
+                add(cls, _set_at(d, (), "parents", list(f["parents"])))
+                add(cls, _set_at(d, (), "parents", SDict([(p, 1) for p in f["parents"]])))
+    for o, so, d in base("Directory", n):
+        ents = dict(so.fields)["entries"]
+        if ents:
+            add("Directory", _set_at(d, (), "entries", [ents[0]] + list(dict(d.items)["entries"][1:])))
+        add("Directory", _set_at(d, (), "entries", list(dict(d.items)["entries"])))
+    for o, so, d in base("Snapshot", n):
+        br = dict(d.items)["branches"]
+        sbr = dict(so.fields)["branches"]
+        for v in (None, SDict([]), 0, (), "x", b""):
+            add("Snapshot", _set_at(d, (), "branches", SDict([(b"falsy", v)] + list(br.items))))
+        obj = [x for _, x in sbr.items if x is not None]
+        if obj:
+            add("Snapshot", _set_at(d, (), "branches", SDict([(b"obj", obj[0])])))
+        add("Snapshot", _set_at(d, (), "branches", [(k, v) for k, v in br.items]))   # a list of pairs is no mapping
+    for cls in CLASSES:
+        for o, so, d in base(cls, 1):
+            add(cls, SDict(list(d.items) + [(1, 2)]))                                 # non-string keys
+            add(cls, SDict(list(d.items) + [(b"id", b"x")]))
+            add(cls, SDict(list(d.items)), mapping="proxy_top")
+    for cls in ("Content", "BaseContent"):
+        for o, so, d in base("Content", n):
+            for txt in ("2020-01-01T00:00:00+00:00", "2021-06-01 10:20:30.123456-05:30", "Thu, 1 Jan 2015 00:00:00 +0100",
+                        "2020-01-01", "garbage", ""):
+                add(cls, _set_at(d, (), "ctime", txt))
+    return out
+
+
+def boundary_cases(g):
+    """values at, just below and just above the limits the validators know"""
+    e2 = "\u00e9"
+    ok_ts = SObj("Timestamp", [("seconds", 1), ("microseconds", 2)])
+    out = [
+        SObj("Origin", [("url", "x" * 2047)]), SObj("Origin", [("url", e2 * 1023 + "x")]),      # 2047 bytes
+        SObj("Origin", [("url", e2 * 1024)]),                                                      # 2048 bytes, 1024 characters
+        SObj("Origin", [("url", "\ud800")]), SObj("Origin", [("url", "u"), ("id", None)]),
+        SObj("Timestamp", [("seconds", -62135510962), ("microseconds", 0)]),
+        SObj("Timestamp", [("seconds", -62135510961), ("microseconds", 999999)]),
+        SObj("Timestamp", [("seconds", 0), ("microseconds", -1)]),
+        SObj("Timestamp", [("seconds", 0), ("microseconds", False)]),
+        SObj("SnapshotBranch", [("target", g.bytes_(21)), ("target_type", SEnum("A", "content"))]),
+        SObj("SnapshotBranch", [("target", g.bytes_(21)), ("target_type", SEnum("A", "alias"))]),
+        SObj("SnapshotBranch", [("target", b""), ("target_type", SEnum("A", "alias"))]),
+        SObj("OriginVisit", [("origin", "o"), ("date", g.date()), ("type", "git"), ("visit", 0)]),
+        SObj("OriginVisit", [("origin", "o"), ("date", g.date()), ("type", "git"), ("visit", True)]),
+        SObj("OriginVisit", [("origin", "o"), ("date", g.date()), ("type", "git"), ("visit", -1)]),
+        SObj("DirectoryEntry", [("name", b"a"), ("type", "file"), ("target", g.sha()), ("perms", True)]),
+        SObj("DirectoryEntry", [("name", b"a"), ("type", "file"), ("target", g.sha()), ("perms", -1)]),
+        SObj("DirectoryEntry", [("name", b"a"), ("type", "file"), ("target", g.sha()), ("perms", "644")]),
+        SObj("DirectoryEntry", [("name", b"a"), ("type", "file"), ("target", g.sha()), ("perms", None)]),
+        SObj("Content", [("sha1", g.sha()), ("sha1_git", g.sha()), ("sha256", g.sha()), ("blake2s256", g.sha()),
+                         ("length", True)]),
+        SObj("SkippedContent", [("sha1", None), ("sha1_git", None), ("sha256", None), ("blake2s256", None),
+                                ("length", None), ("status", "absent"), ("reason", "r")]),
+        SObj("SkippedContent", [("sha1", None), ("sha1_git", None), ("sha256", None), ("blake2s256", None),
+                                ("length", -1), ("status", "absent"), ("reason", "")]),
+        SObj("ExtID", [("extid_type", "t"), ("extid", b"e"), ("target", g.core()), ("extid_version", True)]),
+        SObj("Release", [("name", b"n"), ("message", None), ("target", None), ("target_type", SEnum("B", "revision")),
+                         ("synthetic", 1), ("id", g.sha())]),
+        SObj("Release", [("name", b"n"), ("message", None), ("target", g.sha()), ("target_type", SEnum("B", "revision")),
+                         ("synthetic", False), ("metadata", SDict([(1, 2)]))]),
+        SObj("Release", [("name", b"n"), ("message", None), ("target", g.sha()), ("target_type", SEnum("B", "revision")),
+                         ("synthetic", False), ("metadata", SDict([(b"k", 2)]))]),
+        SObj("Revision", [("message", None), ("author", None), ("committer", None), ("date", None), ("committer_date", None),
+                          ("type", SEnum("C", "git")), ("directory", g.sha()), ("synthetic", True),
+                          ("parents", [g.sha()])]),
+        SObj("Revision", [("message", None), ("author", None), ("committer", None), ("date", None), ("committer_date", None),
+                          ("type", SEnum("C", "git")), ("directory", g.sha()), ("synthetic", True),
+                          ("extra_headers", [[b"a", b"b"], (b"c", b"d")])]),
+        SObj("Revision", [("message", None), ("author", None), ("committer", None), ("date", None), ("committer_date", None),
+                          ("type", SEnum("C", "git")), ("directory", g.sha()), ("synthetic", True),
+                          ("extra_headers", ((b"a", "b"),))]),
+        SObj("TimestampWithTimezone", [("timestamp", ok_ts), ("offset_bytes", None)]),
+    ]
+    # large and deep values
+    deep = 1
+    for _ in range(40):
+        deep = SDict([("d", [(deep,)])])
+    out.append(SObj("MetadataFetcher", [("name", "n"), ("version", "v"), ("metadata", SDict([("deep", deep)]))]))
+    out.append(SObj("Revision", [("message", bytes(5000)), ("author", None), ("committer", None), ("date", None),
+                                 ("committer_date", None), ("type", SEnum("C", "git")), ("directory", g.sha()),
+                                 ("synthetic", True), ("parents", tuple(g.sha() for _ in range(300))),
+                                 ("extra_headers", tuple((b"k%d" % i, g.bytes_()) for i in range(200)))]))
+    out.append(SObj("Directory", [("entries", tuple(
+        SObj("DirectoryEntry", [("name", b"f%d" % i), ("type", "file"), ("target", g.sha()), ("perms", 0o100644)])
+        for i in range(300)))]))
+    out.append(SObj("Snapshot", [("branches", SDict([(b"b%d" % i, None if i % 7 == 0 else SObj("SnapshotBranch", [
+        ("target", g.sha()), ("target_type", SEnum("A", "revision"))])) for i in range(300)]))]))
+    return [{"cls": sp.cls, "kind": "obj", "route": "boundary", "w": enc(fix_right_id(sp))} for sp in out]
+
+
+
 def dict_variants(g, specs):
     """dictionary-level cases derived from generated objects: optional keys dropped, unknown keys, wrong values"""
     r = g.r
@@ -1049,6 +1465,11 @@ def gen(rng, tier):
         cases.append({"cls": s.cls, "kind": "obj", "w": enc(s)})
     cases += _guard(legacy_cases, g, 80 if quick else 4000)
     cases += _guard(nested_legacy_cases, g, quick)
+    cases += _guard(untouched_cases, g, quick)
+    cases += _guard(falsy_cases, g, quick)
+    cases += _guard(neighbour_cases, g, quick)
+    cases += _guard(mixed_dict_cases, g, quick)
+    cases += _guard(boundary_cases, g)
     rng.shuffle(specs)
     cases += _guard(dict_variants, g, specs[: (600 if quick else 20000)])
     # BaseContent.from_dict dispatches on status
@@ -1121,6 +1542,10 @@ def impl(c):
             res["untouched"] = (res["d_after"] == enc(abstract(dc))) and d == dc
         except NotPlain:
             res["untouched"] = d == dc
+        try:
+            res["twice"] = bool(type(o).from_dict(d) == o2)
+        except Exception:
+            res["twice"] = False
         d2 = o2.to_dict()
         res["idem"] = d2 == d
         try:
@@ -1130,19 +1555,30 @@ def impl(c):
         return res
     # dictionary-level case
     d = realize(dec(c["w"]))
-    dc = copy.deepcopy(d)
+    if c.get("mapping"):
+        d = to_mapping(d, c["mapping"])
     cls = _cls(c["cls"])
-    try:
-        o = cls.from_dict(d)
-        res["o"] = enc(abstract(o))
-    except Exception as e:
-        o = None
-        res["o"] = "!" + exc_class(e)
-    try:
-        res["d_after"] = enc(abstract(d))
-        res["untouched"] = res["d_after"] == enc(abstract(dc))
-    except NotPlain:
-        res["untouched"] = d == dc
+
+    def snapshot(x):
+        try:
+            return enc(abstract(x))          # keys, their order and every nested value
+        except Exception:
+            return repr(x)
+
+    def outcome(f):
+        try:
+            o = f()
+            return o, enc(abstract(o))
+        except Exception as e:
+            return None, "!" + exc_class(e)
+
+    before = snapshot(d)
+    o, res["o"] = outcome(lambda: cls.from_dict(d))
+    res["d_after"] = snapshot(d)
+    res["untouched"] = res["d_after"] == before
+    _, again = outcome(lambda: cls.from_dict(d))          # the SAME dictionary object, a second time
+    res["twice"] = again == res["o"] and snapshot(d) == before
+    res["again"] = again
     if o is not None:
         try:
             d1 = o.to_dict()
@@ -1192,6 +1628,21 @@ def _origin_id(d):
     return "00" * 20
 
 
+def _dateparse(txt):
+    """dateutil's answer for a textual ctime, handed to the model as an oracle (a naive result is rejected by the
+    ctime validator with a ValueError, like a parse error)"""
+    from .core import exc_class
+    try:
+        import dateutil.parser
+        dt = dateutil.parser.parse(txt)
+        if dt.tzinfo is None:
+            return "!ValueError"
+        return enc(abstract(dt))
+    except Exception as e:
+        k = exc_class(e)
+        return "!" + (k if k in ("TypeError", "ValueError", "KeyError") else "ValueError")
+
+
 def kwargs_wire(spec):
     """constructor kwargs with nested objects already constructed (post-construction attribute trees)"""
     items = []
@@ -1224,7 +1675,13 @@ def requests(c):
         return _oracle_id(lambda i: _cls(c["cls"]).from_dict({**copy.deepcopy(d), "id": i}))
     def orig_for(d):                  # the oracle's answer for a (nested) Origin
         return oid_for(d) if c["cls"] == "Origin" else _origin_id(d)
+    if c.get("mapping") in ("proxy", "proxy_top"):
+        c["_skip"] = True                # read-only views are not values of the model: implementation-only oracle
+        return []
     d = realize(dec(c["w"]))
+    if c["cls"] in ("Content", "BaseContent") and isinstance(d, dict) and isinstance(d.get("ctime"), str):
+        reqs.append("fdp %s %s %s %s %s" % (c["cls"], oid_for(d), orig_for(d), _dateparse(d["ctime"]), c["w"]))
+        return reqs
     reqs.append("%s %s %s %s %s" % (c.get("op", "fd"), c["cls"], oid_for(d), orig_for(d), c["w"]))
     if c.get("w2"):
         d2 = realize(dec(c["w2"]))
@@ -1277,9 +1734,15 @@ def oracle(c, ires, mres):
             return "to_dict(from_dict(to_dict(o))) != to_dict(o)"
         if not ires.get("untouched"):
             return "from_dict modified the dictionary it was given"
+        if ires.get("twice") is False:
+            return "decoding to_dict(o) a second time does not give the same object"
         return None
     if not ires.get("untouched"):
-        return "from_dict modified the dictionary it was given"
+        return "from_dict modified the dictionary it was given: before/after differ (after: %s)" % ires.get("d_after")
+    if ires.get("twice") is False:
+        return "decoding the same dictionary twice gives %s then %s" % (ires.get("o"), ires.get("again"))
+    if c.get("mapping") in ("proxy", "proxy_top"):
+        return None       # read-only views stored in an unvalidated field are outside the typed domain: only the two oracles above
     if ires.get("non_plain"):
         return "the dictionary of the decoded object contains a non-plain value at " + ires["non_plain"]
     if "re_eq" in ires and not ires["re_eq"]:
@@ -1571,6 +2034,13 @@ def coq_cases(cases):
             return "xc_new %s c%s %s" % (oid(w[2]), w[1], parse(w[3]))
         if w[0] == "rt":
             return "xc_rt %s c%s %s" % (oid(w[2]), w[1], parse(w[3]))
+        if w[0] == "fdp":
+            dp = oid(w[4]) if w[4].startswith("!") else "(Ok %s)" % parse(w[4])
+            if w[1] == "BaseContent":
+                f = "(fd_BaseContent_xd %s %s)" % (oid(w[2]), dp)
+            else:
+                f = "(from_dict_xd %s %s %s c%s)" % (oid(w[2]), oid(w[3]), dp, w[1])
+            return "xc_fd %s %s" % (f, parse(w[5]))
         assert w[0] in ("fd", "fdold"), rq
         if w[1] == "BaseContent":
             f = "(fd_BaseContent_x %s)" % oid(w[2])
